@@ -124,6 +124,13 @@ func ArgRole(p *core.Prog, r *core.Report) {
 				// an argument that bears the name of another parameter of the same type, whose own slot is filled by
 				// something else: p.param.Format handed over as `in` while `format` receives p.param.In
 				looseNames := p.InSubject(g) && strings.HasSuffix(g.Name(), "Msg") // the message helpers name their parameters loosely
+				// the place of the parameter handed over as the location of the value (or the other way round), whatever
+				// the other arguments are: Maximum(n.In, n.In, …) names no member
+				// (the other direction — a path handed over as `in` next to a keyword as the name — is how the swagger
+				// schema-shape rules of the object validator report, outside what C17 claims: left alone)
+				if !looseNames && roleOf(an) == "in" && roleOf(pn) == "loc" {
+					problems = append(problems, fmt.Sprintf("argument %q (%s) is handed over as %q (%s)", an, roleOf(an), pn, roleOf(pn)))
+				}
 				for j := 0; !looseNames && j < sig.Params().Len() && j+off < len(args); j++ {
 					if j == k || sig.Params().At(j).Type().String() != pt {
 						continue
